@@ -420,6 +420,43 @@ def run(fn, args, stop_before=None, max_steps=4000, call_model=None, stop_after=
                 else:
                     raise Stop("from_bytes of a non-byte value")
             return BV(rows, const)
+        if name in ("find", "any", "all", "position") and len(argv) == 2 and isinstance(d0, Iter) and closure_of is not None:
+            clo = closure_of(t)
+            if clo is None:
+                raise Stop("closure of %s not resolved" % name)
+            byref = (clo.local_ty(1) or "").startswith("&")
+            idx = 0
+            while d0.items:
+                item = d0.items.pop(0)
+                env = {"env": argv[1], "i": item}
+                arg2 = Ref(env, "i") if name == "find" else item       # find's predicate takes &Item
+                v2, _ = run(clo, {1: Ref(env, "env") if byref else argv[1], 2: arg2}, max_steps=max_steps, call_model=call_model, params=params, closure_of=closure_of, const_of=const_of)
+                r2 = v2.get(0)
+                if not isinstance(r2, bool):
+                    raise Stop("predicate of %s is not decided" % name)
+                if name == "find" and r2:
+                    return Opt(item, True)
+                if name == "position" and r2:
+                    return Opt(idx, True)
+                if name == "any" and r2:
+                    return True
+                if name == "all" and not r2:
+                    return False
+                idx += 1
+            return Opt() if name in ("find", "position") else (name == "all")
+        if name in ("is_some_and", "map_or") and isinstance(a0, Opt) and closure_of is not None:
+            clo = closure_of(t)
+            if clo is None:
+                raise Stop("closure of %s not resolved" % name)
+            if not a0.some:
+                return False if name == "is_some_and" else argv[1]
+            cl_arg = argv[-1]
+            env = {"env": cl_arg}
+            byref = (clo.local_ty(1) or "").startswith("&")
+            v2, _ = run(clo, {1: Ref(env, "env") if byref else cl_arg, 2: a0.v}, max_steps=max_steps, call_model=call_model, params=params, closure_of=closure_of, const_of=const_of)
+            return v2.get(0)
+        if name in ("is_some", "is_none") and isinstance(a0, Opt):
+            return a0.some == (name == "is_some")
         if name == "try_for_each" and len(argv) == 2 and isinstance(d0, Iter) and closure_of is not None:
             # results are Option-like values whose discriminant 0 means "continue / Ok" (the caller's call model decides
             # what the fallible operation returns); the first non-zero discriminant ends the traversal
